@@ -15,7 +15,9 @@ EXTENDS FxDiagonal, Json
 \* TLC configuration files have no tuples: a shape is written in decimal, one digit per axis
 \* ((2,3,1) = 231), an input structure of two leaves as 1000 * first + second.
 CONSTANTS TreeCodes,      \* input structures (one or two leaves, pytree order)
-          ValueCodes,     \* shapes of the values (rank >= 1)
+          ValueCodes,     \* shapes of the values of rank 1 and 2
+          Value3Codes,    \* shapes of the values of rank 3 (a family, not all 27)
+          V3TreeCodes,    \* subset of TreeCodes on which the values of rank 3 are tried
           DegTreeCodes,   \* subset of TreeCodes also tried with scalar (rank 0) and pytree-valued values
           NegAxes, AxisHi \* raw axis values: -NegAxes..AxisHi
 
@@ -25,16 +27,20 @@ TreeOf(c) == IF c < 1000 THEN <<DigitsOf(c)>> ELSE <<DigitsOf(c \div 1000), Digi
 Trees == {TreeOf(c) : c \in TreeCodes}
 DegTrees == {TreeOf(c) : c \in DegTreeCodes}
 ValueShapes == {DigitsOf(c) : c \in ValueCodes}
+Value3Shapes == {DigitsOf(c) : c \in Value3Codes}
+V3Trees == {TreeOf(c) : c \in V3TreeCodes}
 
 Axis == (-NegAxes)..AxisHi
 Dims == {1, 2, 3}
 
-\* the bounded domain of the property: rank 1..3 leaves, rank 1..2 values, extents in 1..3
+\* the bounded domain of the property: rank 1..3 leaves, rank 1..3 values (a family of rank 3), extents in 1..3
 ShapesOfRank(r) == [1..r -> Dims]
 LeafShapes == ShapesOfRank(1) \cup ShapesOfRank(2) \cup ShapesOfRank(3)
 ASSUME /\ \A t \in Trees : Len(t) \in {1, 2} /\ \A i \in 1..Len(t) : t[i] \in LeafShapes
        /\ \A t \in Trees : Len(t) = 2 => Len(t[1]) # Len(t[2])
        /\ ValueShapes \subseteq ShapesOfRank(1) \cup ShapesOfRank(2)
+       /\ Value3Shapes \subseteq ShapesOfRank(3)
+       /\ V3Trees \subseteq Trees
        /\ DegTrees \subseteq Trees
 
 VARIABLES phase,   \* "tree" -> "values" -> "axes" -> "init" -> "map" -> "done"
@@ -54,17 +60,20 @@ PickTree(t) == /\ phase = "tree" /\ tree' = t /\ phase' = "values"
 PickValues(v, vt) == /\ phase = "values"
                      /\ (v = <<>> \/ vt) => tree \in DegTrees
                      /\ vt => Len(v) = 1
+                     /\ Len(v) = 3 => tree \in V3Trees
                      /\ vsh' = v /\ vtree' = vt /\ phase' = "axes"
                      /\ UNCHANGED <<tree, spec, strict, ad, acc, err, refl>>
 
-\* an int, or any tuple with as many entries as the values have axes (equal entries included);
+\* an int, or any tuple with as many entries as the values have axes (equal entries included;
+\* for values of rank 3: every ordered triple of distinct integers - sorted, swapped, cyclic);
 \* the configuration is complete: the ghost records the reference semantics for it
 PickAxes(sp, s) == /\ phase = "axes"
                    /\ spec' = sp /\ strict' = s /\ phase' = "init"
                    /\ refl' = RefLeaves(tree, vsh, vtree, sp, s)
                    /\ UNCHANGED <<tree, vsh, vtree, ad, acc, err>>
 
-Specs == {ScalarSpec(a) : a \in Axis} \cup {TupleSpec(t) : t \in [1..Len(vsh) -> Axis]}
+Specs == {ScalarSpec(a) : a \in Axis} \cup
+         {TupleSpec(t) : t \in {u \in [1..Len(vsh) -> Axis] : Len(vsh) = 3 => ~HasDup(u)}}
 
 \* BroadcastDiagonalOperator.__init__ before `AbstractLinearOperator.out_structure(self)`
 Construct == /\ phase = "init"
@@ -82,7 +91,7 @@ LeafStep == /\ phase = "map" /\ Len(acc) < Len(tree)
             /\ UNCHANGED <<tree, vsh, vtree, spec, strict, ad, refl>>
 
 Next == \/ \E t \in Trees : PickTree(t)
-        \/ \E v \in ValueShapes \cup {<<>>}, vt \in BOOLEAN : PickValues(v, vt)
+        \/ \E v \in ValueShapes \cup Value3Shapes \cup {<<>>}, vt \in BOOLEAN : PickValues(v, vt)
         \/ \E sp \in Specs, s \in BOOLEAN : PickAxes(sp, s)
         \/ Construct
         \/ LeafStep
